@@ -74,7 +74,9 @@ Definition tensor_mm (nvec : nat) (Ms : seq mat) (X : cols) : cols :=
 Section Core.
 Variables (n C num_iter : nat).           (* matrix_shape[-1], number of flat columns, min(max_iter, n) *)
 Variable mm : cols -> cols.               (* matmul_closure *)
-Variables (tol brk : F).                  (* tol argument; the literal 1e-6 of line 146 *)
+Variable tol : F -> bool.                 (* the test of line 133 on one inner product: x > tol (pinned source) or
+                                             x.abs() > tol (after fix C09-partial-breakdown-sign); see lz_gt below *)
+Variable brk : F.                         (* the literal 1e-6 of line 146 *)
 Variable n_extra : nat.                   (* the literal 10 of line 132 *)
 
 (* column-wise tensor operations *)
@@ -117,7 +119,7 @@ Definition reorth (qm : seq cols) (k : nat) (R : cols) : cols :=
 Definition inner_products (qm : seq cols) (k : nat) (R : cols) : seq (seq F) :=
   mkseq (fun i => cdot (qrow qm i) R) k.+1.
 (* torch.sum(inner_products > tol) != 0 *)
-Definition any_gt (ip : seq (seq F)) : bool := has (has (fun x => altb A tol x)) ip.
+Definition any_gt (ip : seq (seq F)) : bool := has (has tol) ip.
 
 (* lines 131-141: up to n_extra further re-orthogonalisation passes; returns r_vec and could_reorthogonalize *)
 Fixpoint extra_passes (fuel : nat) (qm : seq cols) (k : nat) (R : cols) (ip : seq (seq F)) : cols * bool :=
@@ -142,6 +144,20 @@ Definition lz_init (init : cols) : lz_state :=
   let beta0 := cnorm r1 in                                          (* 89 *)
   let tm := tset (tset (tset tzero 0 0 alpha0) 0 1 beta0) 1 0 beta0 in   (* 92-94 *)
   (qset qm 1 (cdiv r1 beta0), tm).                                  (* 97 *)
+
+(* the repaired source (fix C09-degenerate-budget-and-start) tests beta_0 before it writes t_mat[0, 1], t_mat[1, 0] and
+   q_mat[1]:  `if num_iter > 1 and torch.sum(beta_0.abs() > 1e-6) == 0: num_iter = 1`.  [lz_beta0]: beta_0 (the same
+   expression as in lz_init); [lz_init_stop]: the state when the decomposition ends there (q_0 and alpha_0 only). *)
+Definition lz_beta0 (init : cols) : seq F :=
+  let q0 := cdiv init (cnorm init) in
+  let r := mm q0 in
+  let alpha0 := cdot q0 r in
+  cnorm (csub r (cscale_l alpha0 q0)).
+Definition lz_init_stop (init : cols) : lz_state :=
+  let q0 := cdiv init (cnorm init) in
+  let r := mm q0 in
+  let alpha0 := cdot q0 r in
+  (qset qzero 0 q0, tset tzero 0 0 alpha0).
 
 (* the pieces of one loop body (lines 101-121), named so that the proofs can refer to them *)
 (* 102-107: r_vec = matmul_closure(q_curr_vec) - q_prev_vec.mul(beta_prev) *)
@@ -208,8 +224,14 @@ Record lz_args := MkArgs {
   g_tol : F;
   g_brk : F;                      (* the literal 1e-6 *)
   g_extra : nat;                  (* the literal 10 *)
-  g_debug : bool                  (* settings.debug.on() *)
+  g_debug : bool;                 (* settings.debug.on() *)
+  (* which of the two versions of the source the tree under test contains (regenerated on every run, gen/Consts.v) *)
+  g_first_guard : bool;           (* fix C09-degenerate-budget-and-start: beta_0 is tested, a budget of 1 is served *)
+  g_abs : bool                    (* fix C09-partial-breakdown-sign: inner_products.abs() > tol *)
 }.
+
+(* the test of line 133 on one inner product *)
+Definition lz_gt (g : lz_args) : F -> bool := fun x => altb A (g_tol g) (if g_abs g then aabs A x else x).
 
 Record lz_out := MkOut {
   o_m : nat;                      (* final num_iter = k + 1 *)
@@ -247,11 +269,16 @@ Definition lanczos_tridiag (g : lz_args) : res lz_out :=
     let B := prodn (g_batch g) in
     let C := B * nvec in
     let num_iter := minn (g_max_iter g) n in                               (* 56 *)
-    (* q_mat[0] on a tensor with num_iter = 0 rows, t_mat[0, 1] on a 1 x 1 ... tensor: IndexError *)
-    if num_iter < 2 then Err ErrIndex else
-    let st0 := lz_init n C num_iter (g_mm g) init in
+    (* q_mat[0] on a tensor with num_iter = 0 rows: IndexError; pinned source: also t_mat[0, 1] on a 1 x 1 ... tensor *)
+    if num_iter < (if g_first_guard g then 1 else 2) then Err ErrIndex else
+    (* repaired source: `if num_iter > 1 and torch.sum(beta_0.abs() > 1e-6) == 0: num_iter = 1`, and nothing but q_0 and
+       alpha_0 is written when num_iter is 1; `k = 0` before a loop that does not run *)
+    let stop := g_first_guard g &&
+                ((num_iter < 2) || ~~ has (fun b => altb A (g_brk g) (aabs A b)) (lz_beta0 n C (g_mm g) init)) in
     let: ((qm, tm), kl) :=
-      lz_loop n C num_iter (g_mm g) (g_tol g) (g_brk g) (g_extra g) num_iter.-1 1 st0 in
+      if stop then (lz_init_stop n C num_iter (g_mm g) init, 0)
+      else lz_loop n C num_iter (g_mm g) (lz_gt g) (g_brk g) (g_extra g) num_iter.-1 1
+                   (lz_init n C num_iter (g_mm g) init) in
     let m := kl.+1 in                                                      (* 150 *)
     (* 153: q_mat[:m].permute(-1, *batch dims, -2, 0) ; 155: t_mat[:m, :m].permute(-1, *batch dims, 0, 1) *)
     let col_of o := (o %% B) * nvec + o %/ B in                            (* leading index o = j * B + b *)
@@ -344,7 +371,7 @@ Definition postprocess (n k t : nat) (As : seq mat) (Rs : seq (seq mat)) (Vs : s
 Definition squeeze0 (s : seq nat) : seq nat :=                                     (* tensor.squeeze(0) *)
   if s is x :: r then (if x == 1 then r else s) else s.
 
-Definition root_forward_shape (lead : seq nat) (n m : nat) : seq nat :=
+Definition root_forward_shape_pinned (lead : seq nat) (n m : nat) : seq nat :=
   (* q_mat: lead ++ [n; m], t_mat: lead ++ [m; m] as returned by lanczos_tridiag *)
   (* 61: t_mat.ndimension() == 3 ("if we only used one probe vector"): unsqueeze(0) of both *)
   let lead1 := if size (lead ++ [:: m; m]) == 3 then 1 :: lead else lead in
@@ -352,12 +379,28 @@ Definition root_forward_shape (lead : seq nat) (n m : nat) : seq nat :=
   (* 73-83: matmul with the eigenvectors, scaling by the root eigenvalues: shape of q_mat unchanged *)
   if n_probes == 1 then squeeze0 (lead1 ++ [:: n; m]) else lead1 ++ [:: n; m].     (* 93-94 *)
 
-Definition diag_forward_shape (lead : seq nat) (n m : nat) : seq nat * seq nat :=
+Definition diag_forward_shape_pinned (lead : seq nat) (n m : nat) : seq nat * seq nat :=
   let lead1 := if size (lead ++ [:: m; m]) == 3 then 1 :: lead else lead in        (* 43-45 *)
   (squeeze0 (lead1 ++ [:: m]), squeeze0 (lead1 ++ [:: n; m])).                      (* 61, 60: eigenvalues / q_mat .squeeze(0) *)
 
 (* _postprocess_lanczos_root_inv_decomp line 221: inv_roots[best_solve_index] has shape ( *batch, n, k ); .squeeze(0) *)
-Definition postprocess_shape (batch : seq nat) (n k : nat) : seq nat := squeeze0 (batch ++ [:: n; k]).
+Definition postprocess_shape_pinned (batch : seq nat) (n k : nat) : seq nat := squeeze0 (batch ++ [:: n; k]).
+
+(* after fix C09-leading-singleton-batch: RootDecomposition.forward takes the number of probes from
+   ctx.initial_vectors (1 if None), unsqueezes exactly when it is 1 (that is when lanczos_tridiag squeezed) and
+   squeezes that dimension again at the end; Diagonalization.forward always unsqueezes and squeezes; the probe
+   selection returns inv_roots[best_solve_index] without a further squeeze.  [fixed] = which version the tree under
+   test contains (probed on every run, gen/Consts.v). *)
+Definition root_forward_shape (fixed : bool) (nprobe : nat) (lead : seq nat) (n m : nat) : seq nat :=
+  if fixed then
+    let lead1 := if nprobe == 1 then 1 :: lead else lead in
+    if nprobe == 1 then squeeze0 (lead1 ++ [:: n; m]) else lead1 ++ [:: n; m]
+  else root_forward_shape_pinned lead n m.
+Definition diag_forward_shape (fixed : bool) (lead : seq nat) (n m : nat) : seq nat * seq nat :=
+  if fixed then (squeeze0 ((1 :: lead) ++ [:: m]), squeeze0 ((1 :: lead) ++ [:: n; m]))
+  else diag_forward_shape_pinned lead n m.
+Definition postprocess_shape (fixed : bool) (batch : seq nat) (n k : nat) : seq nat :=
+  if fixed then batch ++ [:: n; k] else postprocess_shape_pinned batch n k.
 
 (* root_inv_decomposition (operators/_linear_operator.py lines 2237-2254): does the argument check on the shape of
    initial_vectors raise RuntimeError?  [batch], [n]: shape of the operator; [ivs] = initial_vectors.shape *)
